@@ -36,6 +36,8 @@ TRIAGE = [
   'a=[0..5], b=[0,1,2], max_length_diff=1: dtw.distance/distance_fast/warping_paths return inf, dtw.warping_paths_fast and warping_path_fast return 3.742'),
  ('F39', lambda c: c['rule'] == 'R-CLAMP' and 'warping_paths' in c['function'],
   'rng(2) normal(10) pairs, window=1, psi=(0,0,0,8): dtw.warping_paths 3.0906 vs dtw.warping_paths_fast 3.0682 (200 of 200 random pairs differ)'),
+ ('F48', lambda c: c['rule'] == 'R-MAP' and 'direct matrix' in c['construct_key'],
+  'normal(6) pair, window=3 (compact width 7 = len2+1, regions C and D non-empty): dtw.warping_paths_fast returns a matrix whose rows 4..6 are shifted one column left of dtw.warping_paths (30 of 300 random configurations differ)'),
  ('F22', lambda c: c['rule'] == 'R-MON' and 'reported parameter' in c['construct_key'],
   'distance_to_similarity(D, method="reciprocal", cover_quantile=0.5, return_params=True): re-applying with the reported r gives a different array (round 0)'),
 ]
